@@ -100,6 +100,13 @@ def run_case(ctx, case):
         except Exception as e:
             ctx.judge(api.bucket(e, "Script"), api.tb_tail(e), case)
             return
+        def in_range_valueerror(e, m, line, col):
+            # shape class of the one confirmed finding: a leading U+FEFF shifts the columns of line 1
+            if text.startswith("\ufeff") and line == 1:
+                dev("valueerror-in-range:leading-bom-line1", "%s at %s" % (api.tb_tail(e), (line, col)))
+            else:
+                dev("in-range-" + api.bucket(e, m), "%s at %s" % (api.tb_tail(e), (line, col)))
+
         for line, col in case["positions"]:
             where = classify_pos(text, line, col)
             for m in POS_METHODS:
@@ -107,7 +114,7 @@ def run_case(ctx, case):
                     res = getattr(s, m)(line, col)
                 except ValueError as e:
                     if where == "in":
-                        dev("valueerror-in-range:%s" % m, "%s at %s" % (api.tb_tail(e), (line, col)))
+                        in_range_valueerror(e, m, line, col)
                     continue
                 except Exception as e:
                     dev(api.bucket(e, m), "%s at %s" % (api.tb_tail(e), (line, col)))
@@ -123,17 +130,17 @@ def run_case(ctx, case):
                     walked += 1
                     for label, e in api.touch(o, depth=1):
                         dev(api.bucket(e, m + "->" + label), "%s at %s" % (api.tb_tail(e), (line, col)))
-            if m == "complete" and where == "in":
-                pass
-        # fuzzy completion at the first in-range position
+        # fuzzy completion at the first in-range positions
         for line, col in case["positions"][:2]:
             if classify_pos(text, line, col) == "in":
                 try:
                     for o in s.complete(line, col, fuzzy=True)[:3]:
                         for label, e in api.touch(o, depth=0):
                             dev(api.bucket(e, "complete(fuzzy)->" + label), api.tb_tail(e))
+                except ValueError as e:
+                    in_range_valueerror(e, "complete", line, col)
                 except Exception as e:
-                    dev(api.bucket(e, "complete(fuzzy)"), api.tb_tail(e))
+                    dev(api.bucket(e, "complete"), api.tb_tail(e))
         for label, fn in (
             ("get_names", lambda: s.get_names()),
             ("get_names(all)", lambda: s.get_names(all_scopes=True, definitions=True, references=True)),
